@@ -780,6 +780,11 @@ def _atomic_store(eng, st, args, dty, callee, m):
     return UNIT
 
 
+@summary(r"^<(std::option::)?Option<.*> as Default>::default$", "Option::default = None")
+def _opt_default(eng, st, args, dty, callee, m):
+    return none()
+
+
 @summary(r"^std::sync::atomic::Atomic(U64|Usize|U32|::<u(8|16|32|64|size)>)::fetch_(add|sub)$", "atomic fetch_add / fetch_sub (single-threaded, wrapping)")
 def _atomic_fetch_add(eng, st, args, dty, callee, m):
     old = eng.load(st, args[0])
